@@ -269,6 +269,16 @@ def enum_rules(ctx):
                                     bad.append(f"from_bits(as_bits({n})) = {back}")
                     except PathRaise as e:
                         bad.append(f"{n}: as_bits raises {e.exc}")
+                # a member whose value is not an integer (a stray trailing comma makes it a tuple) among integer members
+                for n, m in members.items():
+                    if n in ints or isinstance(m.value, bool):
+                        continue
+                    try:
+                        r = I.call(as_bits, [m], {}, ci)
+                        if not isinstance(r, ABits):
+                            bad.append(f"{n} (value {m.value!r}): as_bits returns {r!r}")
+                    except PathRaise as e:
+                        bad.append(f"{n} has the non-integer value {m.value!r}: as_bits raises {e.exc}, and the wire value it was meant for is no longer defined")
                 ws = set(widths.values())
                 if len(ws) == 1 and None not in ws:
                     width = ws.pop()
